@@ -11,14 +11,14 @@ import (
 func init() {
 	register(&Prop{
 		ID:    "C17",
-		Rules: []*Rule{rMigration, rTypeKeyWho, rOpaque, forwardScoped("RegisterTypeMigration"), {Name: "R-LOOP-EXITS", Doc: rLoopExits.Doc, Run: func(c *core.Ctx) { runLoopExits(c, map[string]bool{"errbase.RegisterTypeMigration": true}) }}},
+		Rules: []*Rule{rMigration, scoped(rTypeKeyWho, "who may use the raw type name; GetTypeKey asks for the family", func(_ *core.Ctx, k string) bool { return containsAny(k, "getFullTypeName", "GetTypeKey") }), scoped(rOpaque, "type names kept and re-emitted", func(_ *core.Ctx, k string) bool { return containsAny(k, "getTypeDetails", "details", "Details") }), forwardScoped("RegisterTypeMigration"), {Name: "R-LOOP-EXITS", Doc: rLoopExits.Doc, Run: func(c *core.Ctx) { runLoopExits(c, map[string]bool{"errbase.RegisterTypeMigration": true}) }}},
 		Explain: "Decides the registry discipline that the cross-version scenarios rest on: a migration target cannot be registered twice; getTypeDetails consults the registry on every call for every non-opaque error (no stale cached name); all identity consumers go through getTypeDetails; unknowing processes keep and re-emit the received (original) key; the module's own type keys of migrated types are computed after the migration is registered. " +
 			"NOT decided: order-independence of chained renames registered by users and the five cross-version scenarios as such (registry algorithm semantics over runtime configurations; observation O1 in DESIGN §6: A->B then B->C leaves C mapped to B).",
 		Trusted: []string{"go/ssa", "package initialisation order of the Go runtime"},
 	})
 	register(&Prop{
 		ID:    "C15",
-		Rules: []*Rule{rReport, rWalkMulti, rStackSlot, rOneParser, rEffectReport, {Name: "R-TAINT/S5", Doc: "the S5 sub-class of R-TAINT: provenance of every value written into the Sentry message, exceptions and extras", Run: func(c *core.Ctx) { runTaintFiltered(c, func(s *Sink) bool { return s.Class == "S5" }) }},
+		Rules: []*Rule{rReport, scoped(rWalkMulti, "the report visitor", func(_ *core.Ctx, k string) bool { return strings.Contains(k, "visitAllMulti") }), rStackSlot, scoped(rOneParser, "GetReportableStackTrace", func(_ *core.Ctx, k string) bool { return containsAny(k, "GetReportableStackTrace", "convertPkgStack") }), rEffectReport, {Name: "R-TAINT/S5", Doc: "the S5 sub-class of R-TAINT: provenance of every value written into the Sentry message, exceptions and extras", Run: func(c *core.Ctx) { runTaintFiltered(c, func(s *Sink) bool { return s.Class == "S5" }) }},
 			{Name: "R-LOOP-EXITS", Doc: rLoopExits.Doc, Run: func(c *core.Ctx) { runLoopExits(c, map[string]bool{"report.visitAllMulti": true}) }}},
 		Explain: "Decides: nil gives (nil, nil); the layer walk visits every node of the tree; stacks and safe details are collected in lock-step per node; every exception's module is the error's domain; the message is laid out source location / redacted verbose rendering / composition; the 'error types' extra is the per-layer buffer; the stack re-parsing covers the same type keys as the one-line source; provenance of every event field (S5). " +
 			"NOT decided: counting/ordering relations over runtime lists (exactly one exception per stack, one type line per layer).",
@@ -34,14 +34,16 @@ func init() {
 	})
 	register(&Prop{
 		ID:    "C19",
-		Rules: []*Rule{rHintProviders, rOrder, rDedup, rFlattenSep, rGuardField, rLoopExits},
+		Rules: []*Rule{scoped(rOrder, "the hint/detail/link/tag/safe-detail accessors", func(_ *core.Ctx, k string) bool { return !strings.Contains(k, "GetOneLineSource") }), rHintProviders, rDedup, rFlattenSep, rGuardField, {Name: "R-LOOP-EXITS", Doc: rLoopExits.Doc, Run: func(c *core.Ctx) {
+			runLoopExits(c, map[string]bool{"telemetrykeys.GetTelemetryKeys": true, "issuelink.GetAllIssueLinks": true, "contexttags.GetContextTags": true, "errbase.GetAllSafeDetails": true})
+		}}},
 		Explain: "Decides the structural side of the aggregation contract: the standard-hint providers exist and use the exported texts; hints/details accessors descend before they emit (innermost-first) while links/tags/safe-details append from the outermost layer; hints are appended only on the not-seen edge of a set keyed by the hint, details are not de-duplicated; both Flatten functions use the documented separator; optional members are emitted under a test of that very member; the walking loops have no early exit (every layer and every key is seen). " +
 			"NOT decided: exact list contents for all inputs.",
 		Trusted: []string{"go/ssa"},
 	})
 	register(&Prop{
 		ID:    "C12",
-		Rules: []*Rule{rRetain, rErrRefs, rHideKeep, rCodec},
+		Rules: []*Rule{rRetain, rErrRefs, rHideKeep, scoped(rCodec, "clauses A4-A6: every safe-carrying field is written, restored and read", func(_ *core.Ctx, k string) bool { return containsAny(k, "] A4 ", "] A5 ", "] A6 ") })},
 		Explain: "Decides that every input the library declares PII-free reaches a SAFE position (redact format string, redact.Safe argument, or a field handed out by SafeDetails()/printed as Safe) through every forwarding layer - so it is not redacted away; that captured error arguments are attached as secondary errors on every path; that content behind barriers/secondary errors is folded into SafeDetails() and printed; and (R-CODEC) that those fields have wire-slot agreement so they are still there after a hop. " +
 			"NOT decided: presence of a given token in the final report text (string-level), GetAllSafeDetails' per-layer walk beyond UnwrapOnce.",
 		Trusted: []string{"go/ssa", "the safe-input contract of DESIGN §4.5"},
@@ -62,21 +64,21 @@ func init() {
 	})
 	register(&Prop{
 		ID:    "C01",
-		Rules: []*Rule{rCodec, rOpaque, rTreeRec, rRegType, rSep, rWalkMulti, rShape, rSiblingGuard},
+		Rules: []*Rule{scoped(rCodec, "fields that Error() reads, and the cause", codecTextFields), rOpaque, rTreeRec, rRegType, rSep, scoped(rWalkMulti, "the encoder walk", func(_ *core.Ctx, k string) bool { return containsAny(k, "EncodeError", "is a leaf for UnwrapOnce") }), rSiblingGuard},
 		Explain: "Decides the structural necessary conditions of text/shape preservation: writer/reader slot agreement for every field that Error() reads (R-CODEC), verbatim keep-and-re-emit of message, details, message type and causes by unknowing processes (R-OPAQUE-TRANSPORT), cause/branch recursion on both sides in index order with no branch dropped for any count (R-TREE-RECURSION, R-WALK-MULTI), decoders rebuilding the key's type (no drift after hop 1), one separator constant removed exactly (R-SEP), and Error()/formatter shape agreement. " +
 			"NOT decided: equality of Error() strings for all messages (in particular suffix-matching ambiguity in extractPrefix for messages containing \": \"), protobuf marshalling itself.",
 		Trusted: []string{"go/ssa", "gogo/protobuf"},
 	})
 	register(&Prop{
 		ID:    "C02",
-		Rules: []*Rule{rCodec, rRegType, rOpaque, rTypeKeyWho, rMarkLayers, rTreeRec, rSep},
+		Rules: []*Rule{scoped(rCodec, "identity-relevant fields: those Error() reads, explicit marks, domains", codecIdentityFields), rRegType, rOpaque, rTypeKeyWho, rMarkLayers, rTreeRec, rSep},
 		Explain: "Identity = (Error() text, chain of (family name, extension)). Decides that every identity-relevant field has slot agreement (incl. withMark's explicit mark and withDomain's extension), decoders rebuild the key's type, unknowing hops keep and re-emit the received names, every consumer of identity goes through getTypeDetails with the full mark where the extension matters, and a mark has one full type mark per layer. " +
 			"NOT decided: that text is preserved (C01's undecided part), semantics of foreign Is methods, 'never starts matching' over all pairs.",
 		Trusted: []string{"go/ssa"},
 	})
 	register(&Prop{
 		ID:    "C04",
-		Rules: []*Rule{rOpaque, rWireMsg, rTreeRec, rRegType, rCodec, rShape, rSiblingGuard},
+		Rules: []*Rule{rOpaque, rWireMsg, rTreeRec, rRegType, rCodec, scoped(rShape, "the opaque types", func(_ *core.Ctx, k string) bool { return strings.Contains(k, "opaque") }), rSiblingGuard},
 		Explain: "Decides that opaque values keep and re-emit exactly what was received (message, details incl. payload Any, message type, causes - R-OPAQUE-TRANSPORT, R-TREE-RECURSION), that the wire message each registered encoder sends is what an unknowing receiver needs to rebuild Error() for the type's Error() shape (R-WIRE-MSG), and that a later knowing receiver rebuilds from payload/details (R-CODEC, R-REGTYPE). " +
 			"NOT decided: %+v equality at the final receiver; the renaming simulation (a runtime configuration). Known findings: barrier and gRPC-status encoders (see known_findings.json).",
 		Trusted: []string{"go/ssa"},
@@ -106,14 +108,14 @@ func init() {
 	})
 	register(&Prop{
 		ID:    "C14",
-		Rules: []*Rule{rProtocol, rWrapDual, rWalkMulti, forwardScoped("Is", "IsAny", "As", "If", "HasType", "HasInterface", "Unwrap", "UnwrapOnce", "UnwrapAll", "UnwrapMulti", "Cause")},
+		Rules: []*Rule{rProtocol, rWrapDual, scoped(rWalkMulti, "Is, IsAny, As", func(_ *core.Ctx, k string) bool { return containsAny(k, "markers.Is", "errutil.As", "is a leaf for UnwrapOnce") }), forwardScoped("Is", "IsAny", "As", "If", "HasType", "HasInterface", "Unwrap", "UnwrapOnce", "UnwrapAll", "UnwrapMulti", "Cause")},
 		Explain: "Decides the structural side of drop-in compatibility: the library probes exactly the standard protocol methods (Is/As/Unwrap/Unwrap []error/Cause) with their exact signatures and precedence; every library wrapper implements both Cause() and Unwrap() over the same field so stdlib and pkg/errors traverse library chains; Is/As recurse into multi-cause branches in order; the root API forwards to the right implementation with parameters in order. " +
 			"NOT decided: differential agreement with errors.Is/As/pkg-errors.Cause on all inputs.",
 		Trusted: []string{"go/ssa", "the standard library's own Is/As/Unwrap semantics"},
 	})
 	register(&Prop{
 		ID:    "C13",
-		Rules: []*Rule{rWalkMulti, rTreeRec, rOpaque, rOwnedBranches, {Name: "R-LOOP-EXITS", Doc: rLoopExits.Doc, Run: func(c *core.Ctx) { runLoopExits(c, map[string]bool{"markers.Is": true, "markers.IsAny": true, "report.visitAllMulti": true}) }}},
+		Rules: []*Rule{rWalkMulti, rTreeRec, scoped(rOpaque, "the causes of multi-cause nodes", func(_ *core.Ctx, k string) bool { return containsAny(k, "causes", "MultierrorCauses", "opaqueLeafCauses") }), rOwnedBranches, {Name: "R-LOOP-EXITS", Doc: rLoopExits.Doc, Run: func(c *core.Ctx) { runLoopExits(c, map[string]bool{"markers.Is": true, "markers.IsAny": true, "report.visitAllMulti": true}) }}},
 		Explain: "Decides that every tree walker (Is, IsAny, As, formatter, report visitor, encoder) applies itself to each branch of every chain node's UnwrapMulti in forward order, and that multi-cause types are leaves for Unwrap/UnwrapOnce. " +
 			"NOT decided: 'exactly when' (no false positives of the search), Join dropping nils / nil result, Error() = newline-joined branch texts.",
 		Trusted: []string{"go/ssa"},
@@ -137,7 +139,7 @@ func init() {
 	})
 	register(&Prop{
 		ID:    "C16",
-		Rules: []*Rule{rDepth, rOrderOneLine, rOneParser},
+		Rules: []*Rule{rDepth, rOrderOneLine, scoped(rOneParser, "GetOneLineSource", func(_ *core.Ctx, k string) bool { return containsAny(k, "GetOneLineSource", "getOneLineSourceFromPkgStack") })},
 		Explain: "Decides the depth arithmetic of every exported stack-capturing or domain-computing function of the root package, errutil, withstack and domains, for ALL depths and all forwarding paths at once (affine equation S = 1 [+ depth]). " +
 			"NOT decided: GetOneLineSource's text parsing; the Go runtime's skip semantics (inlined frames) are trusted.",
 		Trusted: []string{"go/ssa", "semantics of runtime.Callers(skip)/runtime.Caller(skip) incl. inlined frames"},
@@ -193,3 +195,56 @@ var rEffectReport = &Rule{Name: "R-EFFECT", Doc: rEffect.Doc + " (restricted to 
 		return n == "BuildSentryReport" || n == "GetReportableStackTrace" || n == "GetOneLineSource"
 	})
 }}
+
+// codecTextFields keeps R-CODEC obligations about fields that make up the
+// Error() text (and the cause / structural clauses A1, A3).
+func codecTextFields(c *core.Ctx, k string) bool { return codecFieldScope(c, k, false) }
+
+// codecIdentityFields additionally keeps marks and domains.
+func codecIdentityFields(c *core.Ctx, k string) bool { return codecFieldScope(c, k, true) }
+
+func codecFieldScope(c *core.Ctx, k string, identity bool) bool {
+	// construct: "<type> [<enc> <-> <dec>] <clause> <field> ..."
+	i := strings.Index(k, "] ")
+	if i < 0 {
+		return true
+	}
+	rest := strings.Fields(k[i+2:])
+	if len(rest) == 0 {
+		return true
+	}
+	clause := rest[0]
+	if clause == "A1" || clause == "A3" {
+		return true
+	}
+	if len(rest) < 2 {
+		return true
+	}
+	field := rest[1]
+	typ := strings.TrimPrefix(strings.Fields(k)[0], "*")
+	if clause == "A2" || clause == "A4" {
+		return false // slot-level clauses are accounted under the field-level ones here
+	}
+	top := strings.Split(field, ".")[0]
+	for _, et := range GetCensus(c).ErrTypes {
+		if et.Name() != typ {
+			continue
+		}
+		sh := GetShapes(c)[et.Named]
+		if sh.CauseField != nil && sh.CauseField.Name() == top {
+			return true
+		}
+		for f := range sh.ErrFields {
+			if f.Name() == top {
+				return true
+			}
+		}
+		if identity && (top == "mark" || top == "domain") {
+			return true
+		}
+		// hidden errors are part of the tree's text only through their own Error(); not here
+		return false
+	}
+	// foreign types (os.PathError …): all their fields make up the text
+	return true
+}
